@@ -50,7 +50,7 @@ func TestC19Replay(t *testing.T) {
 		t.Fatal(err)
 	}
 	tp := rec.Case.Topo
-	if rec.Case.LargePattern != "" {
+	if rec.Case.LargePattern != "" && tp == nil {
 		tp = largeTopo(rec.Case.LargePattern, rec.Case.Instances, rec.Case.ExportInputs)
 	}
 	if h := os.Getenv("C19_REPLAY_HASH"); h != "" {
